@@ -742,6 +742,16 @@ func ruleSIB6(w *World) []Ob {
 			var fam []*ssa.Function
 			fam = append(fam, fn)
 			fam = append(fam, fn.AnonFuncs...)
+			// helpers on the same (pipeline) receiver type that the worker calls
+			if recvTypeName(fn) != simple {
+				allInstrs(fn, func(in ssa.Instruction) {
+					if c, ok := in.(*ssa.Call); ok && c.Common().StaticCallee() != nil {
+						if g := c.Common().StaticCallee(); g != fn && g.Blocks != nil && recvTypeName(g) == recvTypeName(fn) && !callsItself(g) {
+							fam = append(fam, g)
+						}
+					}
+				})
+			}
 			for _, f := range fam {
 				allInstrs(f, func(in ssa.Instruction) {
 					c, ok := in.(*ssa.Call)
@@ -757,8 +767,49 @@ func ruleSIB6(w *World) []Ob {
 			return sortedKeys(set)
 		}
 		a, b := perRoot(wk), perRoot(sm)
+		// when the direct sets differ (one side goes through a helper of the simple type), compare what they bottom out
+		// in: the simple type's leaf methods and the effectful external calls reachable from the per-root calls
+		bottom := func(fn *ssa.Function) string {
+			set := map[string]bool{}
+			var roots []*ssa.Function
+			var fam []*ssa.Function
+			fam = append(fam, fn)
+			fam = append(fam, fn.AnonFuncs...)
+			for _, f := range fam {
+				allInstrs(f, func(in ssa.Instruction) {
+					if c, ok := in.(*ssa.Call); ok && c.Common().StaticCallee() != nil && recvTypeName(c.Common().StaticCallee()) == simple && c.Common().StaticCallee() != fn {
+						roots = append(roots, c.Common().StaticCallee())
+					}
+				})
+			}
+			for f := range reachableFrom(p, roots, nil) {
+				leaf := recvTypeName(f) == simple
+				allInstrs(f, func(in ssa.Instruction) {
+					ci, ok := in.(ssa.CallInstruction)
+					if !ok || ci.Common().StaticCallee() == nil {
+						return
+					}
+					g := ci.Common().StaticCallee()
+					if p.InModule(g) {
+						if recvTypeName(g) == simple && g != f {
+							leaf = false
+						}
+						return
+					}
+					if classifyExternal(g) != EffPure {
+						set["ext:"+g.String()] = true
+					}
+				})
+				if leaf {
+					set[fname(f)] = true
+				}
+			}
+			return strings.Join(sortedKeys(set), ", ")
+		}
 		if strings.Join(a, ",") == strings.Join(b, ",") && len(a) > 0 {
 			l.ok(p.FuncID(wk), construct, p.Pos(wk.Pos()), "both call exactly {"+strings.Join(a, ", ")+"} of "+simple, true, "reuse")
+		} else if ba, bb := bottom(wk), bottom(sm); len(a) > 0 && ba == bb && ba != "" {
+			l.ok(p.FuncID(wk), construct, p.Pos(wk.Pos()), "the worker calls {"+strings.Join(a, ", ")+"}, simple mode {"+strings.Join(b, ", ")+"}; both bottom out in the same leaf methods and external calls {"+ba+"}", true, "reuse")
 		} else {
 			l.bad(p.FuncID(wk), construct, p.Pos(wk.Pos()), "the massive-mode worker handles a root with {"+strings.Join(a, ", ")+"} but simple mode uses {"+strings.Join(b, ", ")+"}: the two modes can give different results for the same root", "reuse")
 		}
